@@ -608,6 +608,8 @@ func execVest(x *Exec, toks []string) string {
 			x.hit("C20", "message-panics", toks[0], "handler or ValidateBasic panicked")
 		}
 		return res + " denom=" + esc(after)
+	case "v.up.v2pool", "v.up.v1pool", "v.up.migrate3", "v.up.migrate2", "v.up.split", "v.up.traces", "v.up.accounts":
+		return execUpgrade(x, f, toks)
 	case "v.end":
 		return "."
 	}
